@@ -327,6 +327,30 @@ fn main() {
         }
     }
 
+    // 0c. PacketHeader::from_parts over the whole grid: every type id 0..63 x both formats x lengths of every class. It either
+    //     refuses (only: legacy format with an id that does not fit its four bits) or builds a header that reports, writes and
+    //     reads back as the type, format and length asked for
+    {
+        use pgp::ser::Serialize; use pgp::types::Tag;
+        for id in 0u8..64 {
+            for old in [false, true] {
+                for n in [0u32, 5, 191, 192, 255, 256, 8383, 8384, 65535, 65536] {
+                    let ver = if old { PacketHeaderVersion::Old } else { PacketHeaderVersion::New };
+                    let r = guarded(|| -> Result<Option<String>, String> {
+                        let Ok(h) = PacketHeader::from_parts(ver, Tag::from(id), PacketLength::Fixed(n)) else { return Ok(None) };
+                        let w = h.to_bytes().map_err(|e| e.to_string())?;
+                        let back = PacketHeader::try_from_reader(&mut &w[..]).map_err(|e| format!("written header does not read back: {e}"))?;
+                        let same = u8::from(back.tag()) == id && u8::from(h.tag()) == id && back.version() == ver && back.packet_length() == PacketLength::Fixed(n);
+                        Ok(Some(format!("{} reads-back-same={}", hx(&w), same as u8)))
+                    });
+                    let must_refuse = old && id >= 16;
+                    let (imp, pred) = match r { Ok(Ok(None)) => ("refused".to_string(), must_refuse), Ok(Ok(Some(s))) => { let ok = s.ends_with("=1") && !must_refuse; (s, ok) } Ok(Err(e)) => (e, false), Err(p) => (p, false) };
+                    cx.out.case("", &[], &["from_parts".into(), id.to_string(), (old as u8).to_string(), n.to_string()], &imp, Some(pred), if must_refuse { "from-parts-must-refuse" } else { "from-parts-grid" });
+                }
+            }
+        }
+    }
+
     // 1. every tag x both formats x every length class, small bodies at class edges
     for tag in 0u8..64 {
         for &n in &[0usize, 1, 191, 192, 193, 255, 256, 8383, 8384] {
